@@ -120,9 +120,22 @@ def norowid(wd, rng, page_size=512, rows=600, tag="wr"):
     for n in range(36):
         k = bytes([7] * (page_size // 4)) + bytes([(n * 37 + j) % 256 for j in range(20 + (n % 5) * page_size // 8)])
         c.execute("INSERT INTO wb VALUES(?,?,?)", (k, "t" * (n % 3) * (page_size // 3) + str(n), n % 9))
+    # a text primary key under NOCASE and a second key column under RTRIM: the primary key values an indexed select copies from
+    # each index entry into its lookup key are compared under those collations, entry after entry, through one key object
+    c.execute("CREATE TABLE wn(k TEXT COLLATE NOCASE, r TEXT COLLATE RTRIM, n INT, t, PRIMARY KEY(k, r)) WITHOUT ROWID")
+    c.execute("CREATE INDEX wn_n ON wn(n)")
+    seen_n = set()
+    for n in range(120):
+        k = rng.choice(WORDS) + rng.choice(["", "x", "Y", "_1", "zz"]); r = rng.choice(["p", "p ", "q", "Q  ", ""]) 
+        if (k.lower(), r.rstrip(" ")) in seen_n:
+            continue
+        seen_n.add((k.lower(), r.rstrip(" ")))
+        c.execute("INSERT INTO wn VALUES(?,?,?,?)", (k, r, n % 11, "t%d" % n))
     c.execute("COMMIT")
     c.close()
     db = DB(path, page_size, tag)
+    db.tables["wn"] = dict(kind="norowid", cols=["k", "r", "n", "t"], pk=[("k", "nocase", False), ("r", "rtrim", False)])
+    db.indexes["wn_n"] = dict(table="wn", cols=[("n", "", False)])
     db.tables["wb"] = dict(kind="norowid", cols=["k", "t", "n"], pk=[("k", "", False), ("t", "", False)])
     db.indexes["wb_n"] = dict(table="wb", cols=[("n", "", False)])
     db.tables["w"] = dict(kind="norowid", cols=["x", "a", "b", "y"], pk=[("a", "", False), ("b", "", True)])
@@ -169,12 +182,30 @@ def overflow(wd, rng, page_size=512, tag="ovf"):
         c.execute("INSERT INTO o VALUES(?,?,?)", ("same" + "s" * (u // 2) + "%02d" % i, i, i % 2))
     for i in range(60):
         c.execute("INSERT INTO o VALUES(?,?,?)", ("dup" + "z" * 150, i, i % 2))
+    # the same long texts under the other orders an index can have: descending, RTRIM, NOCASE (a comparison that is decided by
+    # what lies beyond the part of the entry kept in the page, where "longer" does not mean "later"), with a second column behind
+    c.execute("CREATE INDEX o_kd ON o(k DESC, a)")
+    c.execute("CREATE INDEX o_kr ON o(k COLLATE RTRIM, a DESC)")
+    c.execute("CREATE INDEX o_kn ON o(k COLLATE NOCASE DESC, v)")
+    for i in range(12):
+        # the text proper ends before, around and after the part of the entry that stays in the page
+        base = "pad" + "p" * [2, u // 16, u // 4][i % 3] + str(i % 2)
+        # the text, the text followed by spaces beyond the in-page part, the text followed by spaces and a letter, in other case
+        c.execute("INSERT INTO o VALUES(?,?,?)", (base, 1000 + i, i))
+        # (equal to the one above under RTRIM: the second column decides, both ways)
+        c.execute("INSERT INTO o VALUES(?,?,?)", (base + " " * (u + i), 2000 + i, i + 5))
+        c.execute("INSERT INTO o VALUES(?,?,?)", (base + " " * (u + i + 20), 2500 + i, i - 5))
+        c.execute("INSERT INTO o VALUES(?,?,?)", (base + " " * u + "x", 3000 + i, i % 3))
+        c.execute("INSERT INTO o VALUES(?,?,?)", (base.upper() + " " * (u // 2), 4000 + i, i % 2))
     c.execute("COMMIT")
     c.close()
     db = DB(path, page_size, tag)
     db.tables["o"] = dict(kind="rowid", cols=["k", "v", "a"])
     db.indexes["o_k"] = dict(table="o", cols=[("k", "", False)])
     db.indexes["o_ak"] = dict(table="o", cols=[("a", "", False), ("k", "", False)])
+    db.indexes["o_kd"] = dict(table="o", cols=[("k", "", True), ("a", "", False)])
+    db.indexes["o_kr"] = dict(table="o", cols=[("k", "rtrim", False), ("a", "", True)])
+    db.indexes["o_kn"] = dict(table="o", cols=[("k", "nocase", True), ("v", "", False)])
     db.refresh()
     return db
 
